@@ -126,9 +126,13 @@ func (P *Program) VerifyFunc(ct *Contract, fn *ssa.Function) (res *FuncResult) {
 	_, im := P.mergedContract(ct)
 	// axioms
 	for _, ax := range P.axioms {
+		// an axiom is in force in its own package and in packages that import it
+		if ax.Pkg != ct.Pkg && !importsPkg(pkg, ax.Pkg) {
+			continue
+		}
 		aenv := &SpecEnv{ex: ex, vars: map[string]Val{}, stypes: map[string]*SType{}, cur: entry, old: entry, pkg: P.typesPkg(ax.Pkg), what: "axiom " + ax.Tag}
-		vc.Assume(aenv.boolE(ax.Expr))
-		vc.trusted["axiom "+shortPkg(ax.Pkg)+": "+ax.Src] = true
+		// only added to queries that mention one of the axiom's spec functions
+		vc.AddCondAxiom(aenv.boolE(ax.Expr), "axiom "+shortPkg(ax.Pkg)+": "+ax.Src)
 	}
 	// requires
 	env := &SpecEnv{ex: ex, f: f, vars: vars, stypes: map[string]*SType{}, cur: st, old: entry, pkg: pkg, expand: ex.expands, what: "requires of " + ct.Target}
@@ -405,4 +409,28 @@ func fvFrame(f *Frame) *Frame {
 		nf.names[fv.Name()] = []ssa.Value{fv}
 	}
 	return nf
+}
+
+func importsPkg(p *types.Package, path string) bool {
+	if p == nil {
+		return false
+	}
+	seen := map[*types.Package]bool{}
+	var rec func(q *types.Package, d int) bool
+	rec = func(q *types.Package, d int) bool {
+		if seen[q] || d > 6 {
+			return false
+		}
+		seen[q] = true
+		for _, im := range q.Imports() {
+			if im.Path() == path {
+				return true
+			}
+			if strings.HasPrefix(im.Path(), modPath) && rec(im, d+1) {
+				return true
+			}
+		}
+		return false
+	}
+	return rec(p, 0)
 }
